@@ -264,6 +264,10 @@ func c07Cases(tier string, emit func(c c07Case)) {
 		"nul-bytes":            lines[0] + "\n\x00\x00\x00\x00\n" + lines[len(lines)-1] + "\n",
 		"huge-header-line":     "-----BEGIN " + strings.Repeat("A", 100000) + "-----\n" + rewrap(body, 64) + lines[len(lines)-1] + "\n",
 		"body-1MiB-no-newline": lines[0] + "\n" + strings.Repeat("A", 1<<20),
+		// very many lines of one kind in a row (whatever the reader does per line it must not pile up: stack, memory)
+		"4M-armour-lines": lines[0] + "\n" + strings.Repeat("----------\n", 4<<20) + rewrap(body, 64) + lines[len(lines)-1] + "\n",
+		"4M-begin-lines":  strings.Repeat(lines[0]+"\n", 1<<20) + rewrap(body, 64) + lines[len(lines)-1] + "\n",
+		"4M-blank-lines":  lines[0] + "\n" + strings.Repeat("\n", 4<<20) + rewrap(body, 64) + lines[len(lines)-1] + "\n",
 	}
 	var fnames []string
 	for k := range frames {
